@@ -39,7 +39,8 @@ Fixpoint text_eqb (a b : text) : bool :=
 (** candidate.h.  [c_type]: 0 = Phrase "table", 1 = Phrase "user_table",
     2 = Phrase of another type ("completion"), >= 3 = SimpleCandidate (not a
     Phrase) – the harness uses the same numbering.  [c_uniq] = 0 for a plain
-    candidate, k >= 2 for a UniquifiedCandidate holding k items (its reported
+    candidate, 1 for a ShadowCandidate (made by a simplifier),
+    k >= 2 for a UniquifiedCandidate holding k items (its reported
     type is "uniquified"; text and comment are the first item's). *)
 Record cand := mkCand {
   c_text : text; c_comment : N; c_type : nat; c_start : nat; c_end : nat;
